@@ -106,6 +106,23 @@ impl Driver {
         (slots, next_wakeup)
     }
 
+    /// Verification hook (only with `--cfg petrichorit_des_verif`): reference counts of the
+    /// timer queue and of its pending slots, `[queue strong, queue weak, n, (slot strong,
+    /// slot weak) * n]` in queue order.
+    pub(crate) fn verif_own_counts(&self) -> Vec<usize> {
+        let pending = self.queue.pending.borrow();
+        let mut out = vec![
+            Arc::strong_count(&self.queue),
+            Arc::weak_count(&self.queue),
+            pending.len(),
+        ];
+        for slot in pending.iter() {
+            out.push(Arc::strong_count(slot));
+            out.push(Arc::weak_count(slot));
+        }
+        out
+    }
+
     /// Verification hook (only with `--cfg petrichorit_des_verif`): the ids of the
     /// registered entries of every pending slot, in queue and registration order.
     pub(crate) fn verif_entry_ids(&self) -> Vec<(SimTime, Vec<usize>)> {
